@@ -137,6 +137,8 @@ pub fn run(rep: &Report) {
     run_structures(rep, "wide containers: arrays / objects of 11, 100, 300 entries x 6 strategies", &wide_trees(), &wide_strategies, &c8, checks, false);
     let nokey = |_: usize| vec![Cfg::CHEAP, Cfg { fmt: Fmt::Json, alg: Alg::HS256, decoys: true, hk: Hk::None }];
     run_structures(rep, "cnf as an ordinary user claim (no holder key bound): 16 cnf values x 3 positions x 6 strategies", &cnf_user_trees(), &cnf_strategies, &nokey, checks, false);
+    let pool2 = ["k", "K", "\u{e9}", "e\u{301}"];
+    run_structures(rep, "name-relation family 2: names related by case folding / Unicode normalisation, S(3,3) x all strategies", &named_trees(3, 3, &pool2), &all_strats, &two, checks, false);
     let ch = chains(8);
     run_structures(rep, "depth chains", &ch, &few_strategies, &c8, checks, false);
     let ex = trees_with_extras(2, 2);
